@@ -1,5 +1,6 @@
 import JxlModel.Proofs.Subgrid
 import JxlModel.Proofs.Unchecked
+import JxlModel.Gen.TransformType
 /-!
 # C02 — no memory-unsafe access is reachable (partial: index arithmetic and ownership geometry)
 
@@ -349,6 +350,15 @@ theorem C02_squeeze_scratch_written_before_read (k : Kernel) (w : Nat) (hw : k.m
 
 example : (plan .avx2 37 9).length = 112 ∧ (plan .sse41 17 8).length = 48 ∧
     scratchOk 37 (scratchPlan .avx2 37) [] = true ∧ scratchOk 130 (scratchPlan .sse41 130) [] = true := by
+  decide +kernel
+
+/-- `TransformType::try_from(u8)` (jxl-vardct/src/dct_select.rs) transmutes the byte into the
+`#[repr(u8)]` enum: every byte its guard lets through is a declared discriminant, and every declared
+discriminant is let through. Guard and variant count are regenerated from the source on every run. -/
+theorem C02_transform_type_transmute_valid :
+    (∀ v, v < 256 → Jxl.Gen.TransformType.accepts v = true → v < Jxl.Gen.TransformType.numVariants) ∧
+    (∀ v, v < Jxl.Gen.TransformType.numVariants → Jxl.Gen.TransformType.accepts v = true) ∧
+    Jxl.Gen.TransformType.numVariants ≤ 256 := by
   decide +kernel
 
 end Jxl.Unchecked
